@@ -43,6 +43,8 @@ type vEnv struct {
 	plugCloseErr bool
 	execStartT  int64
 	sawSignal bool
+	objectResult bool // the plugin's output data is the object {"v": <opaque>}
+	lastResult verifrt.Val
 	enabledFalse bool
 	stopReturned bool
 	stoppedBeforeStart bool
@@ -149,7 +151,8 @@ func verifAtomicExecEnter(e *vEnv) {
 	e.h.execAt = len(e.h.events)
 }
 
-func verifAtomicSignalled(e *vEnv) { e.sawSignal = true }
+func verifAtomicSignalled(e *vEnv)              { e.sawSignal = true }
+func verifAtomicResult(e *vEnv, v verifrt.Val) { e.lastResult = v }
 
 func verifAtomicExecLeave(e *vEnv, signalled bool) {
 	e.execLive--
@@ -185,7 +188,12 @@ func (a *vATP) Execute(input schema.Input, toStep <-chan schema.Input, fromStep 
 	if a.env.resultErr {
 		return atp.ExecutionResult{Error: &verifrt.Err{Msg: "plugin crashed"}}
 	}
-	return atp.ExecutionResult{OutputID: a.env.resultID, OutputData: any(verifrt.NondetVal("result"))}
+	v := verifrt.NondetVal("result")
+	verifAtomicResult(a.env, v)
+	if a.env.objectResult {
+		return atp.ExecutionResult{OutputID: a.env.resultID, OutputData: any(map[any]any{"v": v})}
+	}
+	return atp.ExecutionResult{OutputID: a.env.resultID, OutputData: any(v)}
 }
 func (a *vATP) Close() error {
 	if a.env.closeFaults && verifrt.Choice("atp.Close fails", 2) == 1 {
